@@ -82,7 +82,27 @@ pub fn set_small(v: bool) {
     SMALL.store(v, std::sync::atomic::Ordering::Relaxed);
 }
 
+static BIG: std::sync::atomic::AtomicBool = std::sync::atomic::AtomicBool::new(false);
+
+/// payloads around the 16 bit limits of the length fields (engines `big`): 65535 -/+ a few header
+/// sizes, just above 2^16, and far above it
+pub fn set_big(v: bool) {
+    BIG.store(v, std::sync::atomic::Ordering::Relaxed);
+}
+
 fn payload_len(rng: &mut Prng) -> usize {
+    if BIG.load(std::sync::atomic::Ordering::Relaxed) && rng.chance(2, 3) {
+        return match rng.below(8) {
+            0 => 65535 - rng.range(0, 100) as usize,
+            1 => 65535 + rng.range(1, 100) as usize,
+            2 => 65535 - 8 - rng.range(0, 3) as usize,
+            3 => 65535 - 20 - rng.range(0, 45) as usize,
+            4 => 65535 - 40 - rng.range(0, 30) as usize,
+            5 => rng.range(60_000, 70_000) as usize,
+            6 => 65536,
+            _ => 131_072 + rng.range(0, 9) as usize,
+        };
+    }
     if SMALL.load(std::sync::atomic::Ordering::Relaxed) {
         return match rng.below(8) {
             0 => 0,
